@@ -17,6 +17,8 @@ import (
 )
 
 type OblResult struct {
+	Script  string // the query that was answered unsat (kept in the thorough tier only)
+	Cross   string // thorough tier: verdict of a second, different solver on the same query
 	Obl     *Obligation
 	Status  string // discharged, trivial, failed, unknown
 	Solver  string
@@ -469,6 +471,9 @@ func (x *X) discharge(timeout time.Duration, workers int) []*OblResult {
 				r.Solver, r.Seconds, r.Raw = sr.Solver, sr.Seconds, sr.Raw
 				if sr.Status == "unsat" {
 					r.Status = "discharged"
+					if x.crossCheck {
+						r.Script = qfScript
+					}
 					continue
 				}
 				if !dropped {
@@ -489,6 +494,9 @@ func (x *X) discharge(timeout time.Duration, workers int) []*OblResult {
 					r.Seconds += sri.Seconds
 					if sri.Status == "unsat" {
 						r.Status, r.Solver, r.Raw, r.Size = "discharged", sri.Solver+"(instantiated)", sri.Raw, len(inst)
+						if x.crossCheck {
+							r.Script = inst
+						}
 						continue
 					}
 				}
@@ -502,6 +510,9 @@ func (x *X) discharge(timeout time.Duration, workers int) []*OblResult {
 				switch {
 				case sr2.Status == "unsat":
 					r.Status, r.Solver, r.Raw = "discharged", sr2.Solver, sr2.Raw
+					if x.crossCheck {
+						r.Script = full
+					}
 				case sr2.Status == "sat":
 					r.Status, r.Solver, r.Raw, r.Model = "failed", sr2.Solver, sr2.Raw, sr2.Model
 				case sr.Status == "sat":
@@ -568,6 +579,46 @@ func (x *X) discharge(timeout time.Duration, workers int) []*OblResult {
 			}(i)
 		}
 		wg2.Wait()
+	}
+	// thorough tier: every solver-discharged obligation is put to a second, different solver
+	if x.crossCheck {
+		sem := make(chan struct{}, workers)
+		var wg3 sync.WaitGroup
+		for _, i := range jobs {
+			r := results[i]
+			if r.Status != "discharged" || r.Script == "" {
+				continue
+			}
+			wg3.Add(1)
+			sem <- struct{}{}
+			go func(r *OblResult, i int) {
+				defer wg3.Done()
+				defer func() { <-sem }()
+				first := strings.SplitN(r.Solver, "(", 2)[0]
+				for _, other := range []string{"cvc5", "z3", "z3-new"} {
+					if other == first {
+						continue
+					}
+					sr := SolveWith(other, r.Script, fmt.Sprintf("%s_%d", x.root, i), timeout)
+					switch sr.Status {
+					case "unsat":
+						r.Cross = "confirmed by " + other
+					case "sat":
+						r.Cross = "DISAGREES: " + other + " says sat"
+						r.Status = "unknown"
+						r.Raw = "solver disagreement: " + r.Solver + " unsat, " + other + " sat\n" + sr.Raw
+					default:
+						if r.Cross == "" {
+							r.Cross = other + ": " + sr.Status
+						}
+						continue // try the next solver
+					}
+					break
+				}
+				r.Script = ""
+			}(r, i)
+		}
+		wg3.Wait()
 	}
 	return results
 }
